@@ -14,7 +14,7 @@ from .. import gen
 
 TRANSLATOR = os.path.join(ROOT, 'harness', 'translate', 'py2gallina_c14.py')
 GEN_FILE = 'NewMarkerGen.v'
-GEN_CHAIN = ['Gen/NewMarkerGen.v', 'Proofs/GenNewMarkerEq.v', 'Props/C14gen.v']
+GEN_CHAIN = ['Gen/NewMarkerGen.v', 'Proofs/GenNewMarkerEq.v', 'Proofs/GenNewMarkerResume.v', 'Props/C14gen.v']
 EXTRA_PROPS = ('C14gen',)
 ASSUMPTION = (
     'source-derived model of the new-object marker (py2gallina_c14.py): Python `ast` and the translation scheme are trusted; '
